@@ -201,6 +201,68 @@ CONTRACTS = [
         props=["C01", "C09"],
     ),
 ]
+PARAM = "obj:Parameter{__value:real;__min_bound:none;__max_bound:none;label:none}"
+
+
+def replay_bs_validation(inp):
+    import warnings
+    import numpy as np
+    import lightworks as lw
+    from lightworks.sdk.circuit.components import BeamSplitter
+    s = inp["self"]
+    refl = s["reflectivity"]
+    n, a, b = inp["n_modes"], s["mode_1"], s["mode_2"]
+    if not (0 <= a < n and 0 <= b < n and a != b):
+        return None
+    if isinstance(refl, dict) and "class" in refl:
+        r = _f(refl["_Parameter__value"])
+        p = lw.Parameter(0.5)
+        bs = BeamSplitter(a, b, p, s["convention"])
+        p.set(r)
+    else:
+        r = _f(refl)
+        try:
+            bs = BeamSplitter(a, b, 0.5, s["convention"])
+            bs.reflectivity = r
+        except ValueError:
+            return None
+    with warnings.catch_warnings():
+        warnings.simplefilter("ignore")
+        try:
+            U = bs.get_unitary(n)
+            raised = None
+        except ValueError:
+            raised = "ValueError"
+    if not 0 <= r <= 1:
+        if raised != "ValueError":
+            return f"BeamSplitter with reflectivity {r} ({'Parameter' if isinstance(refl, dict) else 'number'}): get_unitary returned instead of raising ValueError; matrix has NaN: {bool(np.isnan(U).any())}"
+    elif raised:
+        return f"BeamSplitter with valid reflectivity {r} raised {raised}"
+    return None
+
+
+def enum_bs_validation():
+    for r in (-0.5, 0, 0.5, 1, 1.5):
+        for as_param in (False, True):
+            refl = {"class": "Parameter", "_Parameter__value": r} if as_param else r
+            yield {"self": {"mode_1": 0, "mode_2": 1, "reflectivity": refl, "convention": "Rx"}, "n_modes": 2}
+
+
+_BSV = "obj:BeamSplitter{mode_1:int;mode_2:int;reflectivity:%s;convention:'Rx'}"
+BS_VALIDATION = Contract(
+    target=f"{F}:BeamSplitter.get_unitary",
+    types={"self": [_BSV % "real", _BSV % PARAM], "n_modes": "int"},
+    requires=[IN_RANGE2],
+    modifies=[],
+    ensures={},
+    # an invalid reflectivity - a plain number or the current value of a Parameter - is rejected when the matrix is requested
+    raises={"ValueError": "not (0 <= rvalue(self.reflectivity) and rvalue(self.reflectivity) <= 1)"},
+    defs={"rvalue": lambda ex, v: (ex.heap[v.id].get("_Parameter__value") if hasattr(v, "id") else v)},
+    replay=replay_bs_validation,
+    props=["C10", "C01"],
+)
+BS_VALIDATION.enum = enum_bs_validation
+CONTRACTS.append(BS_VALIDATION)
 CONTRACTS[0].enum = enum_bs
 CONTRACTS[2].enum = enum_loss
 
